@@ -8,5 +8,8 @@ From MV Require Import Doc.Registry.
 From MV Require Import Doc.Prog.
 From MV Require Import Doc.Render.
 From MV Require Import Doc.Transforms.
+From MV Require Import Doc.Skel.
+From MV Require Import Doc.WF.
+From MV Require Import Doc.SkelCheck.
 Extraction Language OCaml.
-Extraction "model.ml" N.succ N.to_nat render_doc render_xform.
+Extraction "model.ml" N.succ N.to_nat render_doc render_xform faithful_check.
